@@ -105,7 +105,18 @@ func c07BuildExpr(b *c07Built, w *c07WF, rr *Rand, sh c07Shift, cat *c07Catalogu
 			fits = bare
 		}
 	}
-	if (pick>>8)%5 == 0 {
+	if (pick>>16)%8 == 0 {
+		// a fixed share for the sites with non-ASCII text earlier on the line
+		var us []sm
+		for _, f := range fits {
+			if strings.HasPrefix(f.site.name, "u.") {
+				us = append(us, f)
+			}
+		}
+		if len(us) > 0 {
+			fits = us
+		}
+	} else if (pick>>8)%5 == 0 {
 		// a fixed share for the sites that hold two constructs of different rules in one scalar
 		var pairs []sm
 		for _, f := range fits {
@@ -437,7 +448,7 @@ func c07BuildGlob(b *c07Built, w *c07WF, rr *Rand, sh c07Shift, cat *c07Catalogu
 	// where: push or pull_request; as the only element, a later element, or a scalar
 	var ev *c07Node
 	evDraw := rr.Intn(3)
-	formDraw := rr.Intn(4)
+	formDraw := rr.Intn(5)
 	if tagsFilter {
 		evDraw = 0 // tag filters exist for push only
 	}
@@ -459,8 +470,14 @@ func c07BuildGlob(b *c07Built, w *c07WF, rr *Rand, sh c07Shift, cat *c07Catalogu
 		ev.set(filter, c07Q(t))
 	case 2:
 		ev.set(filter, c07Q(c07S("ok-1"), t))
-	default:
+	case 3:
 		ev.set(filter, c07Q(c07S("ok-1"), c07S("release/**"), t, c07S("later")))
+	default:
+		// non-ASCII patterns earlier on the same line (flow sequence)
+		q := c07Q(c07SQ("日本語", c07Single), c07SQ("\u00e9\U0001f600-x", c07Double), t)
+		q.flow = true
+		ev.set(filter, q)
+		b.info["nonascii"] = 1
 	}
 	b.target = t
 	b.site = "glob"
@@ -471,7 +488,7 @@ func c07BuildGlob(b *c07Built, w *c07WF, rr *Rand, sh c07Shift, cat *c07Catalogu
 	if len(gname) > 34 {
 		gname = gname[:34]
 	}
-	b.info["site:glob/"+map[bool]string{true: "ref", false: "path"}[isRef]+"/"+map[bool]string{true: "negated/", false: ""}[neg != ""]+gname] = 1
+	b.info["site:"+map[bool]string{true: "u.", false: ""}[b.info["nonascii"] == 1]+"glob/"+map[bool]string{true: "ref", false: "path"}[isRef]+"/"+map[bool]string{true: "negated/", false: ""}[neg != ""]+gname] = 1
 	if ge.quoted {
 		b.allowedStyles = "ad"
 	}
